@@ -203,6 +203,17 @@ def cases(tier, seed):
         for s1 in one:
             yield {"k": "hist", "pipe": "single", "n": 1, "set": DEFAULT_SET,
                    "prefix": [s1], "fan": "all"}
+    # (a2) the whole output directory removed between two runs of the same pipeline objects
+    for name, st in [("default", DEFAULT_SET)] + list(SETTINGS):
+        for d1 in (0, 1):
+            if d1 and st["defname"]:
+                continue        # two plots cannot share Write's default file name
+            for d2 in (0, 1):
+                yield {"k": "hist", "pipe": "single", "n": 1 + d1, "set": st,
+                       "prefix": [{"data": [d1] * (1 + d1), "tmpl": 0, "del": []},
+                                  {"data": [d2] * (1 + d1), "tmpl": 0, "del": ["DIR"]}],
+                       "fan": [{"data": [0] * (1 + d1), "tmpl": 0, "del": []},
+                               {"data": [1] * (1 + d1), "tmpl": 1, "del": ["DIR"]}]}
     # (b) every other setting: all histories of 2 (quick) / 3 (thorough) runs
     for name, st in SETTINGS:
         if not thorough:
@@ -270,6 +281,13 @@ def cases(tier, seed):
     for size in (0, 10, 4095, 65535, 65536, 65537, 131072, 131077, 200000):
         for opt in ("default", "overwrite", "existing_unchanged"):
             yield {"k": "writetable", "size": size, "opt": opt}
+    # (h) a converter that fails for some tex files, fast and slow flows
+    for nfiles in (2, 3, 4):
+        for failmask in range(1, 1 << nfiles):
+            for slow in (0, 1):
+                if nfiles == 4 and failmask % 3:
+                    continue
+                yield {"k": "latexfail", "n": nfiles, "fail": failmask, "slow": slow}
     # (f) MakeFilename naming rules
     for ci in range(len(MK_CONTEXTS)):
         for first in range(len(MK_VOCAB)):
@@ -538,11 +556,17 @@ class World(object):
             self.tver += 1
             self.write_template()
         deleted = []
-        for art in step["del"]:
+        todo = list(step["del"])
+        if "DIR" in todo:
+            # the whole output directory is removed (not only files in it)
+            todo = artefacts(self.pipe, self.n)
+        for art in todo:
             p = self.path_of(art)
             if os.path.exists(p):
                 os.remove(p)
                 deleted.append(art)
+        if "DIR" in step["del"] and self.pipe != "direct":
+            shutil.rmtree(self.out, ignore_errors=True)
         return deleted
 
     def run(self):
@@ -1075,6 +1099,64 @@ def run_mkfn(r, obs):
             obs.check(value[0] == 7, "makefilename-data-changed", "data part changed; " + desc)
 
 
+def run_latexfail(r, obs):
+    """LaTeXToPDF / PDFToPNG over tex files of which some cannot be converted: every file named
+    by a yielded value exists, and the convertible ones are all converted."""
+    import shutil
+    import tempfile
+    import time
+    import lena.core
+    import lena.output
+    from rv.props import _out_stubs
+    obs.nontrivial = True
+    n, failmask, slow = r["n"], r["fail"], r["slow"]
+    root = os.path.realpath(tempfile.mkdtemp(prefix="rv_c19_f_"))
+    stubs = _out_stubs.Stubs(os.path.join(root, "bin"), os.path.join(root, "stub.log"))
+    stubs.install_path()
+    try:
+        texs = []
+        for i in range(n):
+            p = os.path.join(root, "t%d.tex" % i)
+            with open(p, "w") as f:
+                f.write("doc %d\n%s\nend" % (i, "FAILLATEX" if failmask >> i & 1 else "fine"))
+            texs.append(p)
+
+        def flow():
+            for p in texs:
+                yield (p, {"output": {"filetype": "tex", "changed": True}})
+                if slow:
+                    time.sleep(0.06)        # the converter (a few ms) has finished by now
+        seq = lena.core.Sequence(
+            lena.output.LaTeXToPDF(verbose=0, create_command=stubs.create_command),
+            lena.output.PDFToPNG(verbose=False))
+        import contextlib
+        import io
+        with contextlib.redirect_stdout(io.StringIO()):
+            out = list(seq.run(flow()))
+        obs.count("converter_failure_runs")
+        missing = [v[0] for v in out if isinstance(v, tuple) and isinstance(v[0], str)
+                   and not os.path.exists(v[0])]
+        obs.check(not missing, "yielded-file-does-not-exist:converter-failed:%s-flow"
+                  % ("slow" if slow else "fast"),
+                  "LaTeXToPDF/PDFToPNG over %d tex files (failing: %s, %s flow) yielded %r, of "
+                  "which %r do not exist" % (n, [i for i in range(n) if failmask >> i & 1],
+                                             "slow" if slow else "fast",
+                                             [v[0] for v in out], missing))
+        good = sorted(os.path.join(root, "t%d.png" % i) for i in range(n)
+                      if not failmask >> i & 1)
+        got = sorted(v[0] for v in out if isinstance(v, tuple))
+        obs.check(got == good, "yielded-values-wrong:converter-failed",
+                  "yielded %r, the convertible files give %r" % (got, good))
+        for i in range(n):
+            if not failmask >> i & 1:
+                pdf = os.path.join(root, "t%d.pdf" % i)
+                obs.check(os.path.exists(pdf), "pdf-missing:convertible-file",
+                          "%s was not produced" % pdf)
+    finally:
+        stubs.restore_path()
+        shutil.rmtree(root, ignore_errors=True)
+
+
 def _text(n, salt=""):
     """Deterministic text of *n* characters made of csv-like lines."""
     out, i = [], 0
@@ -1161,6 +1243,8 @@ def run_case(r, obs):
             run_mkfn(r, obs)
         elif r["k"] == "writetable":
             run_writetable(r, obs)
+        elif r["k"] == "latexfail":
+            run_latexfail(r, obs)
         else:
             raise ValueError(r["k"])
     finally:
